@@ -10,7 +10,7 @@
    the tensor model T over the scalars S, the indices not in [tgs] summed over
    their ranges, the targets [tgs] assigned by [r]. *)
 From Coq Require Import ZArith QArith List Bool Permutation.
-From ADC Require Import Core.Scalar Core.Index Core.Expr Models.Deltas Models.DeltasProofs
+From ADC Require Import Core.Scalar Core.Index Core.Expr Core.Canon Models.Deltas Models.DeltasProofs
   Models.DeltasExamples.
 Import ListNotations.
 
@@ -74,12 +74,26 @@ Print Assumptions C09_eval_deltas_sound.
 
 (* (5) Every delta left in the returned product is stuck: it has no preferred
    index, or its killable index is a target and (its preferred index is a
-   target too or the two indices do not carry equal information). *)
+   target too or the two indices do not carry equal information).  Without
+   hypotheses there is one exception, which is what the code does: if the
+   product collapses to a single object the recursive call returns it as it
+   is (a lone delta is not a Mul).  Under the hypothesis of the property
+   (every contracted index occurs on a non-delta object) there is no
+   exception. *)
 Theorem C09_eval_deltas_terminal :
   forall (fuel : nat) (reorder : state -> state) (tg : list index) (st st' : state),
-    eval_deltas fuel reorder tg st = Done st' -> terminal tg st'.
+    eval_deltas fuel reorder tg st = Done st' -> terminal tg st' \/ is_mul st' = false.
 Proof. exact eval_deltas_terminal. Qed.
 Print Assumptions C09_eval_deltas_terminal.
+
+Theorem C09_eval_deltas_terminal_covered :
+  forall (S : Scalar) (T : tmodel S), orbital_model S T ->
+  forall (fuel : nat) (reorder : state -> state) (tgp tgs : list index),
+    good_step S T tgs reorder -> incl tgs tgp ->
+    forall st st' : state, wf_objs (sobjs st) -> covered tgs (sobjs st) ->
+    eval_deltas fuel reorder tgp st = Done st' -> terminal tgp st'.
+Proof. exact eval_deltas_terminal_covered. Qed.
+Print Assumptions C09_eval_deltas_terminal_covered.
 
 (* (6) The recursion ends: fuel > number of deltas suffices whenever the step
    between passes does not create deltas. *)
@@ -142,6 +156,25 @@ Theorem C09_hypotheses_decidable :
     (wf_objsb os = true -> wf_objs os) /\ (coveredb tgs os = true -> covered tgs os).
 Proof. exact (fun tgs os => conj (wf_objsb_ok os) (coveredb_ok tgs os)). Qed.
 Print Assumptions C09_hypotheses_decidable.
+
+(* (11) Certificate for an observed call tree.  [check_trace_top st tg obs]
+   re-runs the model pass on the first argument list, compares its result with
+   the expression the implementation produced (same normal form of
+   Core.Equiv: sorted contracted indices, canonical tensors with sign,
+   delta^2 = delta), checks the hypotheses of (2) and continues with the
+   *observed* argument list of the next call.  If it evaluates to true, the
+   last observed expression (the result) has the value of the input in every
+   tensor model that respects the declared tensor symmetries, for every
+   assignment of the targets within their ranges.  The harness evaluates it
+   inside Coq for every recorded call tree. *)
+Theorem C09_check_trace_sound :
+  forall (S : Scalar) (T : tmodel S), orbital_model S T -> Core.Canon.respects S T ->
+  forall (st : state) (tg : option (list index)) (obs : list (option state)) (r : env),
+    let tgs := match tg with Some l => l | None => einstein_targets (sobjs st) end in
+    inrange S T r tgs -> check_trace_top st tg obs = true ->
+    state_val S T tgs r st = oval S T tgs r (last obs None).
+Proof. exact check_trace_top_sound. Qed.
+Print Assumptions C09_check_trace_sound.
 
 (* The hypotheses are satisfiable: a model with four spin orbitals, the
    product 1/2 delta_ij delta_pj f_pa g_j with targets i, a. *)
